@@ -233,6 +233,12 @@ func (p *Prog) atomFresh(a *Atom, use ssa.Instruction) bool {
 	if !ok {
 		return false
 	}
+	return p.fieldsStableBetween(fs, cond, use)
+}
+
+// fieldsStableBetween: no store to any of the fields, and no call that may store to one,
+// on any path from `cond` to `use` that does not pass `cond` again.
+func (p *Prog) fieldsStableBetween(fs map[*types.Var]bool, cond, use ssa.Instruction) bool {
 	// Region: instructions on paths from the condition to the use that do not pass through
 	// the condition again (the condition dominates the use, so re-passing re-establishes it).
 	from := cond.Block()
